@@ -84,7 +84,6 @@ impl Cors {
     pub fn _process(request: &Request, cors: &Cors) -> Result<Vec<Header>, Error> {
         let mut headers : Vec<Header> = vec![];
 
-        let allow_origins = cors.allow_origins.join(",");
         let boxed_origin = request.get_header(Header::_ORIGIN.to_string());
 
         if boxed_origin.is_none() {
@@ -94,7 +93,8 @@ impl Cors {
         let origin = boxed_origin.unwrap();
         let origin_value = format!("{}", origin.value);
 
-        let is_valid_origin = allow_origins.contains(&origin_value);
+        // the origin has to be exactly one of the configured origins
+        let is_valid_origin = cors.allow_origins.iter().any(|allowed| allowed.trim() == origin_value);
         if !is_valid_origin {
             return Ok(headers)
         }
@@ -165,7 +165,8 @@ impl Cors {
         let origin = boxed_origin.unwrap();
         let origin_value = format!("{}", origin.value);
 
-        let is_valid_origin = allow_origins.contains(&origin_value);
+        // the origin has to be exactly one of the comma separated configured origins
+        let is_valid_origin = allow_origins.split(",").any(|allowed| allowed.trim() == origin_value);
         if !is_valid_origin {
             return Ok(headers)
         }
